@@ -162,3 +162,14 @@ PROPS["C09"] = dict(
     rule="one case per (marker placement, loop switch, count, hook order, track count); non-trivial when the whole trace and the callback counts matched the reference",
     assumptions=SEQ_ASSUME,
 )
+
+PROPS["C17"] = dict(
+    level="model_checking", engine="enum", title="container/converter front-ends preserve the music (RMI, GMF, MUS, XMI)",
+    technique="exhaustive enumeration of bounded grammars of MUS scores, XMI sequences and RMI/GMF wrappings; independent MUS and XMI reference interpreters and a differential oracle against the bare SMF, every trace replayed on the real loader and sequencer",
+    level_text="Every grammar member is loaded through opn2_openData and played; the channel events reaching the synthesizer must be the event sequence the source format defines (MUS channel 15 -> percussion, controller table, remembered note volumes, pitch wheel scaling; XMI note durations -> note-offs, selected song) "
+               "with inter-event times proportional to source ticks at 140 Hz +-2.5 % (MUS) / 120 Hz (XMI with its tempo); RMI must equal the bare SMF event for event and time for time, GMF up to the constant ratio 96/192.",
+    level_note="events sharing a source tick are matched as a set (the sequencer's same-tick ordering is C07's subject); the converter's own CC7=100 on a channel's first use is neither required nor forbidden; first note volume of a MUS channel is always given explicitly (the format's default is not defined by the statement)",
+    legs=[Leg("conv", SEQ_SRC, "fast", ["--prop", "C17"], ["--prop", "C17"], timeout_thorough=14000)],
+    rule="one case per grammar member; non-trivial when the file loaded and the complete delivered trace matched the reference interpreter",
+    assumptions=SEQ_ASSUME,
+)
